@@ -50,6 +50,14 @@ endef
 
 $(foreach f,asu tsan plain,$(foreach e,$(ENGINES_seq),$(eval $(call ENGINE_RULE,$(e),$(f),seq,seq))))
 $(foreach f,asu tsan plain,$(foreach e,$(ENGINES_par),$(eval $(call ENGINE_RULE,$(e),$(f),par,par))))
+# real oneTBB (no shadow headers): stub-fidelity cross-check of the concurrency knob
+define REAL_RULE
+$(B)/$(2)/$(1): harness/$(1).cpp $(HDRS) | cfg
+	@mkdir -p $(B)/$(2)
+	$(CXX) $(BASE) $$(FLAGS_$(2)) -I$(B)/gen/par -I$(REPO)/include -MF $(B)/$(2)/$(1).d -o $$@ harness/$(1).cpp -ltbb -lpthread
+endef
+$(foreach f,asu plain,$(eval $(call REAL_RULE,e_knobreal,$(f))))
+
 define DEMO_RULE
 $(B)/$(2)/e_demo_$(1): harness/e_demo.cpp $(REPO)/src/$(3).cpp $(HDRS) | cfg
 	@mkdir -p $(B)/$(2)
